@@ -12,9 +12,9 @@ False = "/" (joins (y,x+1) and (y+1,x)).
 import itertools
 
 NAME = "gokigen"
-STATUS = "differential only"
+STATUS = "model+differential"
 THEOREMS = []
-LEAN_CMD = None
+LEAN_CMD = "puz_gokigen"
 
 _SIZES = [(1, 1), (1, 2), (2, 1), (1, 3), (3, 1), (2, 2), (2, 3), (3, 2), (1, 4), (4, 1), (3, 3), (2, 4), (4, 2), (3, 4), (4, 3)]
 
@@ -86,3 +86,8 @@ def rule_check(problem, answer):
                 return False
             parent[ra] = rb
     return True
+
+
+def lean_line(problem):
+    rows = " ".join("(" + " ".join(str(v) for v in row) + ")" for row in problem["problem"])
+    return "(puz_%s %d %d (%s))" % (NAME, problem["height"], problem["width"], rows)
